@@ -12,7 +12,7 @@ from prosemirror.transform.transform import TransformError
 
 ID = "C13"
 CORR_MODULE = "Corr.C13"
-LEVEL = "exploration"
+LEVEL = "proof"
 SHARD = 120
 
 
